@@ -29,8 +29,16 @@ func H_C14_variable_hist() {
 		verifrt.Cover("derived2")
 	case 2:
 		v := NewVariable[uint8]()
+		// the target may already hold something and the source may still be at its zero value when the link is made
+		if verifrt.Choose("targetPreset", 2) == 1 {
+			v.Set(verifrt.U8("preset"))
+		}
+		if verifrt.Choose("sourcePreset", 2) == 1 {
+			a.Set(verifrt.U8("va0"))
+		}
 		stop = v.InheritFrom(a)
 		d = v
+		verifrt.Assert(v.Get() == a.Get(), "InheritFrom did not copy the current value of its source at once")
 		verifrt.Cover("inherit")
 	}
 	n := verifrt.Param("writes", 3)
@@ -267,6 +275,25 @@ func H_C14_waitgroup_hist() {
 			verifrt.Cover("pending")
 		}
 	}
+}
+
+// H_C14_waitgroup_conc: Add of two elements racing with Done of the first: the group triggers only when nothing is
+// pending any more.
+//
+//verif:h prop=C14 preempt=2/3 cover=done runs=5000000 timeout=250/900
+func H_C14_waitgroup_conc() {
+	wg := NewWaitGroup[uint8]()
+	var w sync.WaitGroup
+	w.Add(2)
+	go func() { defer w.Done(); verifrt.MustFinish(); wg.Add(1, 2) }()
+	go func() { defer w.Done(); verifrt.MustFinish(); wg.Done(1) }()
+	verifrt.MustFinish()
+	w.Wait()
+	verifrt.Cover("done")
+	pending := wg.PendingElements().Size()
+	// Done(1) before Add: no effect, both stay pending; after (or inside) Add: 2 stays pending. Either way something is pending.
+	verifrt.Assert(pending >= 1, "an element that was added and never marked done is not pending")
+	verifrt.Assert(!wg.WasTriggered(), "a WaitGroup triggered while an added element was still pending")
 }
 
 // H_C14_eviction_hist: an EvictionState has triggered exactly the events of slots up to the last evicted slot.
